@@ -188,6 +188,7 @@ func (w *World) FullSweep(t *rapid.T, l *LState, o HistOpts) {
 	w.CheckAggregated(l, nil, false, nil, nil)
 	w.CheckLogs(l, 4, paginate.OrderAsc)
 	w.CheckMovesTable(l)
+	w.CheckVolumesTable(l)
 	if len(l.M.Txs) > 0 {
 		// a point in time beyond every recorded date: the answer is the current state, but it is computed from the moves
 		beyond := w.Env.Sim.Clock().Add(1000 * time.Hour)
